@@ -44,6 +44,7 @@ PrimType(fam, ts) ==
          IF Len(ts) = 2 /\ ts[1] \in Num \cup {BOOL} /\ ts[2] = ts[1] THEN BOOL ELSE ERR
     [] fam \in {"eq", "ne"} ->
          IF Len(ts) = 2 /\ ts[1] \in Num \cup {BOOL, STR} /\ ts[2] = ts[1] THEN BOOL ELSE ERR
+    [] fam \in {"odd", "even", "zero"} -> IF Len(ts) = 1 /\ ts[1] \in Num THEN BOOL ELSE ERR
     [] fam = "tobi" -> IF Len(ts) = 1 /\ ts[1] \in Num THEN BI ELSE ERR
     [] fam = "pow" -> IF Len(ts) = 2 /\ ts[1] \in Num /\ ts[2] \in Num THEN ts[1] ELSE ERR
     [] fam = "not" -> IF Len(ts) = 1 /\ ts[1] = BOOL THEN BOOL ELSE ERR
@@ -132,9 +133,9 @@ TypeOf(x, C, P) ==
     [] e = "rset" -> LET r == TypeOf(x.r, C, P) IN
                      IF Ok(r) /\ r[1] = "rec" /\ x.i \in 1..Len(P.recs[r[2] + 1])
                         /\ Fits(TypeOf(x.v, C, P), P.recs[r[2] + 1][x.i]) THEN P.recs[r[2] + 1][x.i] ELSE ERR
-    \* [v]@U is resolved by the type of v: it is accepted when v has the type of some branch of U
-    [] e = "mkun" -> LET bs == P.uns[x.t[2] + 1] v == TypeOf(x.v, C, P) IN
-                     IF Ok(v) /\ v # ANY /\ \E i \in 1..Len(bs) : bs[i] = v THEN x.t ELSE ERR
+    \* [tag == v]@U names the branch: v must have that branch's type (branches may share a type)
+    [] e = "mkun" -> LET bs == P.uns[x.t[2] + 1] IN
+                     IF x.tag \in 1..Len(bs) /\ Fits(TypeOf(x.v, C, P), bs[x.tag]) THEN x.t ELSE ERR
     [] e = "uis"  -> LET u == TypeOf(x.u, C, P) IN
                      IF Ok(u) /\ u[1] = "un" /\ x.tag \in 1..Len(P.uns[u[2] + 1]) THEN BOOL ELSE ERR
     [] e = "uget" -> LET u == TypeOf(x.u, C, P) IN
